@@ -6,7 +6,10 @@ import (
 	"reflect"
 	"strconv"
 	"strings"
+	"sync"
 	"sync/atomic"
+
+	"flamingo.me/pugtemplate/pugjs"
 )
 
 // C08 data values that are Go STRUCTS (the data of a real application: products, users, ...),
@@ -28,6 +31,42 @@ import (
 //                            so in a fresh process every round meets a named type for the first time.
 //
 // What a template prints never depends on the epoch field or on which instance was picked.
+//
+// OBJECTS OF THE ENGINE'S OWN MODEL THAT THE CALLER SHARES BETWEEN RENDERS (a cache of converted
+// values put into the data of every request):
+//
+//   {"t":"shared","v":{"id":..,"val":..}}  the ONE result of pugjs.Convert(val) that this case's caller holds
+//                            under that id: built when first asked for, then handed to every render of the
+//                            case (alone or in a storm, whatever the job) whose data names the id.  Every
+//                            render still gets its own OUTER data value; what is shared is the converted
+//                            object inside it.
+//   {"t":"ptr","v":..}       a pointer to the described value (to a map, to a struct, to a pointer, to an
+//                            object of the engine's model)
+//   {"t":"objs","v":[..]}    []pugjs.Object, {"t":"omap","v":[[k,v]..]} map[string]pugjs.Object (elements that
+//                            are not objects yet are converted)
+//
+// Templates push to, sort and assign into what they find in their data; a render must see only its own
+// writes, and what the caller holds must be afterwards what it was (the renders alone after the storm get
+// the same shared objects and must answer as before it).
+
+// c08Shared: the converted objects the caller of the current case holds (reset per case).
+var c08Shared = struct {
+	sync.Mutex
+	m map[string]pugjs.Object
+}{m: map[string]pugjs.Object{}}
+
+func c08ResetShared() {
+	c08Shared.Lock()
+	c08Shared.m = map[string]pugjs.Object{}
+	c08Shared.Unlock()
+}
+
+func c08AsObject(v interface{}) pugjs.Object {
+	if o, ok := v.(pugjs.Object); ok {
+		return o
+	}
+	return pugjs.Convert(v)
+}
 
 type c08TypeEnv struct {
 	epoch uint64 // names the extra field of the StructOf types
@@ -146,6 +185,72 @@ func c08Build(raw json.RawMessage, env *c08TypeEnv) (interface{}, error) {
 				return nil, err
 			}
 			res[unhx(k)] = v
+		}
+		return res, nil
+	case "shared":
+		var sp struct {
+			ID  string          `json:"id"`
+			Val json.RawMessage `json:"val"`
+		}
+		if err := json.Unmarshal(tv.V, &sp); err != nil {
+			return nil, err
+		}
+		c08Shared.Lock()
+		o, ok := c08Shared.m[sp.ID]
+		c08Shared.Unlock()
+		if ok {
+			return o, nil
+		}
+		v, err := c08Build(sp.Val, env)
+		if err != nil {
+			return nil, err
+		}
+		c08Shared.Lock()
+		defer c08Shared.Unlock()
+		if o, ok := c08Shared.m[sp.ID]; ok { // somebody else was first: there is ONE object per id
+			return o, nil
+		}
+		o = pugjs.Convert(v)
+		c08Shared.m[sp.ID] = o
+		return o, nil
+	case "ptr":
+		v, err := c08Build(tv.V, env)
+		if err != nil || v == nil {
+			return nil, err
+		}
+		p := reflect.New(reflect.TypeOf(v))
+		p.Elem().Set(reflect.ValueOf(v))
+		return p.Interface(), nil
+	case "objs":
+		var l []json.RawMessage
+		if err := json.Unmarshal(tv.V, &l); err != nil {
+			return nil, err
+		}
+		res := make([]pugjs.Object, len(l))
+		for i, x := range l {
+			v, err := c08Build(x, env)
+			if err != nil {
+				return nil, err
+			}
+			res[i] = c08AsObject(v)
+		}
+		return res, nil
+	case "omap":
+		var l [][2]json.RawMessage
+		if err := json.Unmarshal(tv.V, &l); err != nil {
+			return nil, err
+		}
+		res := make(map[string]pugjs.Object, len(l))
+		for _, kv := range l {
+			var k string
+			if err := json.Unmarshal(kv[0], &k); err != nil {
+				return nil, err
+			}
+			v, err := c08Build(kv[1], env)
+			if err != nil {
+				return nil, err
+			}
+			res[unhx(k)] = c08AsObject(v)
 		}
 		return res, nil
 	case "sof":
